@@ -316,6 +316,18 @@ gen_c14 (gen_t *g, rng_t *r, scenario_t *sc, int tier)
 	    else if (rr < 9) { static const int tk[] = { MOP_COMPOSITE_TRAPS, MOP_COMPOSITE_TRIS }; gen_traps (g, tk[rng_n (r, 2)], src, dst); }
 	    else gen_composite (g, 1, 6 + (int)rng_n (r, 2), mask, dst);
 	}
+	else if (roll < 33)
+	{
+	    /* use an image as mask, flip one of its boolean properties with nothing else in
+	     * between, use it again: derived flags of the mask must follow */
+	    int mk = 2 + (int)rng_n (r, nsrc);
+	    int64_t a[6] = { 0, 0, 0, mk, (int64_t)rng_n (r, 4) };
+	    static const int kinds[] = { MOP_SET_COMPONENT_ALPHA, MOP_SET_COMPONENT_ALPHA, MOP_SET_SOURCE_CLIPPING, MOP_SET_CLIENT_CLIP };
+	    gen_composite (g, 1, src, mk, dst);
+	    sc_addv (sc, kinds[rng_n (r, 4)], 5, a);
+	    gen_composite (g, 1, src, mk, dst);
+	    sc->ops[sc->n_ops - 1] = sc->ops[sc->n_ops - 3];       /* the very same request */
+	}
 	else if (roll < 42) gen_transform (g, any, TC_ANY);
 	else if (roll < 52) gen_filter (g, any, 1);
 	else if (roll < 60) gen_repeat (g, any);
